@@ -155,7 +155,7 @@ func (w *worker) intact() (ok bool, what string) {
 		for _, e := range ents {
 			names = append(names, e.Name())
 		}
-		return false, "dir:" + strings.Join(names, "+")
+		return false, "dir:" + hx.Enc([]byte(strings.Join(names, "+")))
 	}
 	if b, err := os.ReadFile(filepath.Join(cwd, "canary")); err != nil || string(b) != "canary\n" {
 		return false, "canary-modified"
@@ -163,7 +163,7 @@ func (w *worker) intact() (ok bool, what string) {
 	if b, err := os.ReadFile(filepath.Join(w.dir, "tripped")); err == nil {
 		f := strings.Fields(string(b))
 		if len(f) > 0 {
-			return false, "ran:" + filepath.Base(f[0])
+			return false, "ran:" + hx.Enc([]byte(filepath.Base(f[0])))
 		}
 		return false, "ran"
 	}
@@ -724,7 +724,7 @@ func rawScript(r *hx.Rand) []byte {
 	var s []byte
 	n := 1 + r.Intn(6)
 	for i := 0; i < n; i++ {
-		if r.Chance(1, 6) {
+		if r.Chance(1, 14) {
 			s = append(s, r.Pick(odd)...)
 		} else {
 			s = append(s, r.Pick(pieces)...)
